@@ -32,7 +32,10 @@ NAMESETS = [["2-clique"], ["2-clique", "3-clique"], ["2-clique-blue", "2-clique-
 
 def gen_cases(tier, seed):
     n = 300 if tier == "quick" else 30000
-    return [{"seed": seed * 100193 + i} for i in range(n)]
+    cases = [{"seed": seed * 100193 + i} for i in range(n)]
+    if tier == "thorough":
+        cases.append({"kind": "repo-tests", "seed": seed, "_cost": 500})
+    return cases
 
 
 def make_graph(rng, res):
@@ -142,6 +145,14 @@ def install_hook():
 def run_case(case):
     import gcmpy
     from gcmpy import ToolsNames as TN, NetworkNames as NN
+    if case.get("kind") == "repo-tests":
+        from ..repotests import run as _run_repo_tests
+        res = Result()
+        _run_repo_tests(ID, res)
+        res.nontrivial = True
+        res.digest = "repo-tests"
+        res.sample = {"kind": "repo-tests", "notes": res.notes[:2]}
+        return res
     install_hook()
     res = Result()
     rng = random.Random(case["seed"])
